@@ -10,7 +10,7 @@
    typed decode  =  generic strict decode ; canonical form ; schema conformance with
    unknown-field rejection ; validity rules.  No proofs here. *)
 From Coq Require Import List NArith ZArith Bool String Ascii.
-Require Import V.base.Bytes V.gen.SerdeConsts V.model.Cbor.
+Require Import V.base.Bytes V.gen.SerdeConsts V.gen.SerdeDtos V.model.Cbor.
 Import ListNotations.
 Local Open Scope N_scope.
 
@@ -71,6 +71,7 @@ Inductive schema : Type :=
 | SStruct (fs : list (bytes * (bool * schema)))   (* field name, omitempty?, field schema *)
 | STagged (t : N) (s : schema)    (* registered type tag *)
 | SNode                           (* boolexpr.Node: recursive, see node_schema *)
+| SOneOf (ss : list schema)       (* conforms to one of several struct layouts (a package's message structs) *)
 | SAny.
 
 Definition u64max : N := 18446744073709551615.
@@ -143,6 +144,11 @@ Fixpoint conf (fuel : nat) (s : schema) (x : item) : cres :=
           end
       | STagged t s' => match x with Tag t' y => if t' =? t then conf f s' y else CShape | _ => CShape end
       | SNode => conf f node_schema x
+      | SOneOf ss =>
+          let rs := map (fun s' => conf f s' x) ss in
+          if existsb (fun r => match r with COk => true | _ => false end) rs then COk
+          else if forallb (fun r => match r with CUnknown => true | _ => false end) rs then CUnknown
+          else CShape
       | SAny => COk
       end
   end.
@@ -380,6 +386,7 @@ Inductive ty : Type :=
 | TEcdsaSig (c : curve) | TDklsPartial (c : curve) | TPedShare (c : curve) | TPedLifted (c : curve)
 | TMatrix (c : curve) | TSqMatrix (c : curve) | TMvMatrix (c : curve)
 | TNat | TInt | TNatPlus | TScalar (c : curve) | TPoint (c : curve)
+| TShallow (strict : bool) (cands : list (list (bytes * bool)))   (* field names only, gen/SerdeDtos.dto_groups *)
 | TGeneric.
 
 Definition s_idset : schema := SMapOf SId SBool.
@@ -397,6 +404,46 @@ Definition s_vv : schema := SStruct [ (k_verification_vector, (false, s_matrix s
 Definition s_basepublic : schema :=
   SStruct [ (k_msp, (false, s_msp)); (k_verificationVector, (false, s_vv)) ].
 Definition s_natbytes (nm : bytes) : schema := SStruct [ (nm, (false, SBytes)) ].
+
+(* shallow types: every field optional for conformance and of any shape; the one rule is that no
+   declared (non-omitempty) component of the matching layout is missing, null or undefined —
+   rule 40 where the type's UnmarshalCBOR itself refuses that, rule 140 for plain message structs,
+   whose missing components are refused by Validate in the round function, not by the decoder *)
+Definition shallow_schema (fs : list (bytes * bool)) : schema :=
+  SStruct (map (fun f : bytes * bool => (fst f, (true, SAny))) fs).
+Definition nullish (x : item) : bool := match x with Simple 22 | Simple 23 => true | _ => false end.
+Definition shallow_complete (fs : list (bytes * bool)) (x : item) : bool :=
+  forallb (fun f : bytes * bool => snd f || (match x with Map ps => has_key ps (fst f) | _ => false end && negb (nullish (fld (fst f) x)))) fs.
+Definition shallow_rules (strict : bool) (cands : list (list (bytes * bool))) (x : item) : list rule :=
+  match find (fun fs => match conf 3 (shallow_schema fs) x with COk => true | _ => false end) cands with
+  | Some fs => [ (if strict then 40 else 140, shallow_complete fs x) ]
+  | None => []
+  end.
+
+(* the group of gen/SerdeDtos.dto_groups whose name is the longest prefix of the type name *)
+Fixpoint is_prefix (p l : bytes) : bool :=
+  match p, l with
+  | [], _ => true
+  | a :: p', b :: l' => (a =? b) && is_prefix p' l'
+  | _ :: _, [] => false
+  end.
+Definition shallow_group (name : bytes) : option (bool * list (list (bytes * bool))) :=
+  match fold_left (fun (best : option (nat * (bool * list (list (bytes * bool))))) g =>
+               if is_prefix (fst g) name
+               then match best with
+                    | Some (n, _) => if Nat.ltb n (List.length (fst g)) then Some (List.length (fst g), snd g) else best
+                    | None => Some (List.length (fst g), snd g)
+                    end
+               else best) dto_groups None with
+  | Some (_, g) => Some g
+  | None => None
+  end.
+
+Definition ty_shallow (name : bytes) : ty :=
+  match shallow_group name with
+  | Some (strict, cands) => TShallow strict cands
+  | None => TGeneric
+  end.
 
 Definition schema_of (t : ty) : schema :=
   match t with
@@ -429,6 +476,7 @@ Definition schema_of (t : ty) : schema :=
   | TNatPlus => SStruct [ (k_natPlus, (false, s_natbytes k_natBytes)) ]
   | TScalar _ => s_scalar
   | TPoint _ => s_point
+  | TShallow _ cands => SOneOf (map shallow_schema cands)
   | TGeneric => SAny
   end.
 
@@ -455,6 +503,7 @@ Definition rules_of (t : ty) (x : item) : list rule :=
   | TNatPlus => natplus_rules x
   | TScalar c => scalar_rules c x
   | TPoint c => point_rules c x
+  | TShallow strict cands => shallow_rules strict cands x
   | TNat | TInt | TGeneric => []
   end.
 
